@@ -136,9 +136,9 @@ def generate(rng, tier):
         if rng.random() < 0.3:
             case["history"] = rng.choice(["add", "delete", "append"])
         return case
-    kinds = {"pickle": ["bool", "int", "float", "str", "lstr", "date", "datetime", "obool", "ustr", "timedelta", "float32", "int32", "obj", "uint64"],
-             "npz": ["bool", "int", "float", "str", "date", "datetime", "obool", "ustr", "timedelta", "float32", "uint64"],
-             "parquet": ["bool", "int", "float", "str", "date", "datetime", "uint64", "timedelta", "int32", "float32"],
+    kinds = {"pickle": ["bool", "int", "float", "str", "lstr", "date", "datetime", "obool", "ustr", "timedelta", "float32", "int32", "obj", "uint64", "uint32"],
+             "npz": ["bool", "int", "float", "str", "date", "datetime", "obool", "ustr", "timedelta", "float32", "uint64", "uint32"],
+             "parquet": ["bool", "int", "float", "str", "date", "datetime", "uint64", "timedelta", "int32", "float32", "uint32"],
              "csv": ["bool", "int", "float", "str", "date", "datetime", "float32"],
              "json": ["bool", "int", "float", "str", "obool", "float32"]}[fmt]
     ncol = rng.randint(2, 5)
@@ -366,6 +366,13 @@ def _execute(case):
                 if d0_ != d1_ and d1_ in (np.dtype("int64"), np.dtype("float64")):
                     # mechanism key of a recorded finding (known_findings.json)
                     res.violate("parquet:dtype-widened:narrow-numeric-column", f"column {n0}: {d0_} came back {d1_}; {ctx}")
+                    return res.dict()
+            sk = [s_[1] for s_ in spec if s_[0] == n0][0]
+            if same and fmt == "parquet" and sk in ("int", "float", "bool", "uint64", "uint32"):
+                # these column types have an exact Parquet counterpart: the dtype itself must come back, signedness and width included
+                d0_, d1_ = np.asarray(dict.__getitem__(df, n0)).dtype, np.asarray(dict.__getitem__(back, n1)).dtype
+                if d0_ != d1_:
+                    res.violate(f"roundtrip:dtype-differs:parquet:{sk}", f"column {n0}: dtype {d0_} came back as {d1_}; {ctx}")
                     return res.dict()
             if not same:
                 feat2 = "string-with-na" if k0 == "string" and any(c == canon.NA for c in pre[n0]) else k0
